@@ -1,74 +1,221 @@
-(* C12 — vec_env.reset(seed): sub-environment i is reset alone with seed + i; together with
-   ProofsVec this gives the refinement for whole runs starting at construction. *)
+(* C12 — composition: for every environment that meets the interface contract, the vectorised
+   session refines N environments run alone; then the scripted family as an instance. *)
 From Coq Require Import List Arith Bool ZArith Lia.
 Import ListNotations.
 From AgileV Require Import Base.Prelude C12.Model C12.Proofs C12.ProofsShm C12.ProofsInfo C12.ProofsVec.
 
-Definition seed_of (seed : option Z) (i : nat) : option Z := option_map (fun z => (z + Z.of_nat i)%Z) seed.
+(* ================================================================== generic in the environment ====== *)
+Section Generic.
+Context {env state : Type}.
+Variable e_step : env -> state -> list Z -> state * trans.
+Variable e_reset : env -> state -> option Z -> state * (dict obs_t * dict info_t).
+Variable e_kind : env -> okind.
+Variable e_live : state -> list nat.
+Variable s_init : state.
+(* the contract of a (PettingZoo parallel) environment, as far as the vector environment relies on it *)
+Hypothesis C_done : forall E s acts,
+  all_done_keys (snd (e_step E s acts)) = g_no_agent_left e_live (fst (e_step E s acts)).
+Hypothesis C_step_obs : forall E s acts a ob,
+  lookup a (tobs (snd (e_step E s acts))) = Some ob -> obs_ok (mshapes (e_kind E)) ob.
+Hypothesis C_reset_obs : forall E s seed a ob,
+  lookup a (fst (snd (e_reset E s seed))) = Some ob -> obs_ok (mshapes (e_kind E)) ob.
+Hypothesis C_step_info : forall E s acts a d,
+  lookup a (tinfo (snd (e_step E s acts))) = Some d -> NoDup (keys d).
+Hypothesis C_reset_info : forall E s seed a d,
+  lookup a (snd (snd (e_reset E s seed))) = Some d -> NoDup (keys d).
 
-Lemma workers_reset_spec agents k n seed : forall Es i0 ss m rs ri mf,
-  Forall (fun E => kind E = k) Es -> length ss = length Es ->
-  i0 + length Es <= n -> wf_mem n k agents m ->
-  workers_reset agents i0 Es ss seed m = (rs, ri, mf) ->
-  wf_mem n k agents mf /\ length rs = length Es /\ length ri = length Es /\
-  (forall j E s, nth_error Es j = Some E -> nth_error ss j = Some s ->
-     nth_error rs j = Some (fst (worker_reset E agents s (seed_of seed (i0 + j)))) /\
-     nth_error ri j = Some (snd (snd (worker_reset E agents s (seed_of seed (i0 + j)))))) /\
-  row_spec n k agents m mf i0 (length Es)
-    (fun j => match nth_error Es j, nth_error ss j with
-              | Some E, Some s => Some (fst (snd (worker_reset E agents s (seed_of seed (i0 + j)))))
-              | _, _ => None end).
+Notation wstep := (g_worker_step e_step e_reset e_kind).
+Notation wreset := (g_worker_reset e_reset e_kind).
+Notation sstep := (g_single_step e_step e_reset e_live).
+
+Lemma g_single_obs_ok E s acts a ob :
+  lookup a (tobs (snd (sstep E s acts))) = Some ob -> obs_ok (mshapes (e_kind E)) ob.
 Proof.
-  induction Es as [|E Es IH]; intros i0 ss m rs ri mf HK Ls Hn Hm Hw.
-  - destruct ss; [|discriminate]. cbn in Hw. injection Hw as <- <- <-.
-    split; [auto|]. split; [auto|]. split; [auto|]. split.
-    + intros j E s H. destruct j; discriminate.
-    + intros a i Ha Hi. cbn [length]. replace (i0 + 0) with i0 by lia.
-      destruct (Nat.leb_spec i0 i), (Nat.ltb_spec i i0); cbn; auto; lia.
-  - destruct ss as [|s ss]; [discriminate|].
-    cbn [workers_reset] in Hw. fold (seed_of seed i0) in Hw.
-    destruct (worker_reset E agents s (seed_of seed i0)) as [s' [o inf]] eqn:Ew.
-    destruct (workers_reset agents (S i0) Es ss seed (write_shm i0 (kind E) o m)) as [[rs' ri'] mf'] eqn:Er.
-    injection Hw as <- <- <-.
-    inversion HK as [|? ? HkE HK']; subst.
-    assert (Hout : wf_obs (kind E) agents o).
-    { pose proof (worker_reset_obs_wf E agents s (seed_of seed i0)) as H. rewrite Ew in H. exact H. }
-    assert (Hm' : wf_mem n (kind E) agents (write_shm i0 (kind E) o m)).
-    { apply write_shm_wf; auto. cbn in Hn. lia. }
-    cbn [length] in *.
-    destruct (IH (S i0) ss _ rs' ri' mf' HK' ltac:(lia) ltac:(lia) Hm' Er)
-      as (Wf & L1 & L2 & Hnth & Hrows).
-    split; [auto|]. split; [lia|]. split; [lia|]. split.
-    + intros j E0 s0 H H0. destruct j as [|j]; cbn [nth_error] in *.
-      * injection H as <-. injection H0 as <-. rewrite Nat.add_0_r, Ew. auto.
-      * replace (i0 + S j) with (S i0 + j) by lia. apply (Hnth j E0 s0); auto.
-    + intros a i Ha Hi.
-      rewrite (Hrows a i Ha Hi).
-      rewrite (shm_write_read_lemma i0 i n (kind E) agents o m a); auto; try lia.
-      destruct (Nat.leb_spec (S i0) i); destruct (Nat.ltb_spec i (S i0 + length Es)); cbn [andb].
-      * destruct (Nat.leb_spec i0 i); [|lia]. destruct (Nat.ltb_spec i (i0 + S (length Es))); [|lia]. cbn [andb].
-        replace (i - i0) with (S (i - S i0)) by lia. cbn [nth_error].
-        replace (i0 + S (i - S i0)) with (S i0 + (i - S i0)) by lia. reflexivity.
-      * destruct (Nat.ltb_spec i (i0 + S (length Es))); [lia|]. rewrite andb_false_r.
-        destruct (Nat.eqb_spec i i0); [lia|]. reflexivity.
-      * destruct (Nat.eqb_spec i i0) as [->|Hne].
-        -- destruct (Nat.leb_spec i0 i0); [|lia]. destruct (Nat.ltb_spec i0 (i0 + S (length Es))); [|lia].
-           cbn [andb]. rewrite Nat.sub_diag. cbn [nth_error]. rewrite Nat.add_0_r, Ew. reflexivity.
-        -- destruct (Nat.leb_spec i0 i); [lia|]. reflexivity.
-      * lia.
+  unfold g_single_step. pose proof (C_step_obs E s acts a ob) as Hr.
+  destruct (e_step E s acts) as [s1 tr]. cbn [snd] in Hr.
+  destruct (g_no_agent_left e_live s1); auto.
+  pose proof (C_reset_obs E s1 None a ob) as Hq.
+  destruct (e_reset E s1 None) as [s2 [o i]]. cbn [fst snd tobs] in *. auto.
 Qed.
 
-Lemma worker_reset_info_wf E agents s seed :
-  NoDup agents -> info_wf (snd (snd (worker_reset E agents s seed))).
+Lemma g_single_info_nodup E s acts a d :
+  lookup a (tinfo (snd (sstep E s acts))) = Some d -> NoDup (keys d).
 Proof.
-  intros Hnd. unfold worker_reset, env_reset. cbn [fst snd live].
-  apply fill_info_wf; auto. intros a d.
+  unfold g_single_step. pose proof (C_step_info E s acts a d) as Hr.
+  destruct (e_step E s acts) as [s1 tr]. cbn [snd] in Hr.
+  destruct (g_no_agent_left e_live s1); auto.
+  pose proof (C_reset_info E s1 None a d) as Hq.
+  destruct (e_reset E s1 None) as [s2 [o i]]. cbn [fst snd tinfo] in *. auto.
+Qed.
+
+Lemma g_worker_obs_wf E agents s acts : wf_obs (e_kind E) agents (tobs (snd (wstep E agents s acts))).
+Proof.
+  rewrite (g_worker_refines_single e_step e_reset e_kind e_live C_done). cbn [snd process_transition tobs].
+  apply fill_obs_wf. intros a ob. apply g_single_obs_ok.
+Qed.
+
+Lemma g_worker_info_wf E agents s acts : NoDup agents -> info_wf (tinfo (snd (wstep E agents s acts))).
+Proof.
+  intros Hnd. rewrite (g_worker_refines_single e_step e_reset e_kind e_live C_done).
+  cbn [snd process_transition tinfo]. apply fill_info_wf; auto. intros a d. apply g_single_info_nodup.
+Qed.
+
+Lemma g_worker_reset_obs_wf E agents s seed : wf_obs (e_kind E) agents (fst (snd (wreset E agents s seed))).
+Proof.
+  unfold g_worker_reset. pose proof (fun a ob => C_reset_obs E s seed a ob) as Hq.
+  destruct (e_reset E s seed) as [s' [o i]]. cbn [fst snd] in *. apply fill_obs_wf. auto.
+Qed.
+
+Lemma g_worker_reset_info_wf E agents s seed : NoDup agents -> info_wf (snd (snd (wreset E agents s seed))).
+Proof.
+  intros Hnd. unfold g_worker_reset. pose proof (fun a d => C_reset_info E s seed a d) as Hq.
+  destruct (e_reset E s seed) as [s' [o i]]. cbn [fst snd] in *. apply fill_info_wf; auto.
+Qed.
+
+(* position i of a vectorised run = environment i run alone, for EVERY environment meeting the contract *)
+Theorem g_vec_refines_singles k agents Es : forall actss (st : gvstate state) i E s,
+  NoDup agents -> Forall (fun E => e_kind E = k) Es -> wf_vstate (length Es) k agents st ->
+  Forall (actions_ok (length Es)) actss ->
+  nth_error Es i = Some E -> nth_error (vstates st) i = Some s ->
+  let acts_i := map (fun actions => nth i (transpose_actions agents actions 0%Z) []) actss in
+  nth_error (vstates (fst (g_vec_run wstep e_kind k agents Es st actss))) i
+    = Some (fst (g_run sstep E s acts_i)) /\
+  Forall2 (fun out ref => agrees_at k agents i out (process_transition k agents ref))
+          (snd (g_vec_run wstep e_kind k agents Es st actss)) (snd (g_run sstep E s acts_i)).
+Proof.
+  induction actss as [|actions rest IH]; intros st i E s Hnd HK Hst HF HE Hs; cbn zeta.
+  - cbn. split; auto.
+  - inversion HF as [|? ? Ha HF']; subst. cbn [g_vec_run g_run map].
+    destruct (g_vec_step_refines wstep e_kind g_worker_obs_wf g_worker_info_wf
+                k agents Es st actions i E s Hnd HK Hst Ha HE Hs) as (Wf & H1 & H2).
+    cbn zeta in H1, H2.
+    destruct (g_vec_step wstep e_kind k agents Es st actions) as [st' out]. cbn [fst snd] in *.
+    rewrite (g_worker_refines_single e_step e_reset e_kind e_live C_done) in H1, H2. cbn [fst snd] in H1, H2.
+    destruct (sstep E s (nth i (transpose_actions agents actions 0%Z) [])) as [s' ref] eqn:Es1.
+    cbn [fst snd] in H1, H2.
+    specialize (IH st' i E s' Hnd HK Wf HF' HE H1). cbn zeta in IH.
+    destruct (g_vec_run wstep e_kind k agents Es st' rest) as [stf outs].
+    destruct (g_run sstep E s' (map (fun actions0 => nth i (transpose_actions agents actions0 0%Z) []) rest))
+      as [sf refs].
+    cbn [fst snd] in *. destruct IH as [I1 I2]. split; auto.
+    constructor; auto.
+    assert (Hk : e_kind E = k).
+    { rewrite Forall_forall in HK. apply HK. eapply nth_error_In; eauto. }
+    rewrite <- Hk at 2. exact H2.
+Qed.
+
+(* vec_env.reset(seed): sub-environment i is reset alone with seed + i *)
+Theorem g_vec_reset_refines_env k agents Es (st : gvstate state) seed i E s :
+  NoDup agents -> Forall (fun E => e_kind E = k) Es -> wf_vstate (length Es) k agents st ->
+  nth_error Es i = Some E -> nth_error (vstates st) i = Some s ->
+  let r := g_vec_reset wreset e_kind k agents Es st seed in
+  let w := wreset E agents s (seed_of seed i) in
+  wf_vstate (length Es) k agents (fst r) /\
+  nth_error (vstates (fst r)) i = Some (fst w) /\
+  forall a, In a agents ->
+    obs_row i k (get a (fst (snd r)) []) = get a (fst (snd w)) [] /\
+    (forall key, info_at (snd (snd r)) a key i = info_in (snd (snd w)) a key) /\
+    mask_at (snd (snd r)) a i = has_agent (snd (snd w)) a.
+Proof. apply (g_vec_reset_refines wreset e_kind g_worker_reset_obs_wf g_worker_reset_info_wf). Qed.
+
+(* a whole session: construct, reset(seed), then any sequence of action batches *)
+Theorem g_vec_session_refines k agents Es seed actss i E :
+  NoDup agents -> Forall (fun E => e_kind E = k) Es -> Forall (actions_ok (length Es)) actss ->
+  nth_error Es i = Some E ->
+  let st0 := fst (g_vec_reset wreset e_kind k agents Es (g_vec_init s_init k agents Es) seed) in
+  let s0 := fst (e_reset E s_init (seed_of seed i)) in
+  let acts_i := map (fun actions => nth i (transpose_actions agents actions 0%Z) []) actss in
+  nth_error (vstates (fst (g_vec_run wstep e_kind k agents Es st0 actss))) i
+    = Some (fst (g_run sstep E s0 acts_i)) /\
+  Forall2 (fun out ref => agrees_at k agents i out (process_transition k agents ref))
+          (snd (g_vec_run wstep e_kind k agents Es st0 actss)) (snd (g_run sstep E s0 acts_i)).
+Proof.
+  intros Hnd HK HF HE. cbn zeta.
+  assert (Hs : nth_error (vstates (g_vec_init s_init k agents Es)) i = Some s_init).
+  { unfold g_vec_init. cbn [vstates]. rewrite nth_error_map, HE. reflexivity. }
+  destruct (g_vec_reset_refines_env k agents Es (g_vec_init s_init k agents Es) seed i E s_init Hnd HK
+              (g_vec_init_wf s_init k agents Es) HE Hs) as (Wf & H1 & _).
+  cbn zeta in H1.
+  assert (Hw : fst (wreset E agents s_init (seed_of seed i)) = fst (e_reset E s_init (seed_of seed i))).
+  { unfold g_worker_reset. destruct (e_reset E s_init (seed_of seed i)) as [s' [o inf]]. reflexivity. }
+  rewrite Hw in H1.
+  apply (g_vec_refines_singles k agents Es actss _ i E _ Hnd HK Wf HF HE H1).
+Qed.
+End Generic.
+
+(* ================================================================== the scripted family meets the contract *)
+Lemma enc_member_length u m sh f0 f1 f2 f3 : length (enc_member u m sh f0 f1 f2 f3) = msize sh.
+Proof.
+  unfold enc_member. destruct (Nat.eqb_spec (msize sh) 1) as [->|Hne]; destruct u; cbn [andb negb length];
+    try reflexivity; rewrite map_length, seq_length; auto.
+Qed.
+
+Lemma encode_ok k f0 f1 f2 f3 : obs_ok (mshapes k) (encode k f0 f1 f2 f3).
+Proof. unfold obs_ok, encode. apply imap_lengths. intros m sh. apply enc_member_length. Qed.
+
+Lemma observed_ok E (g : nat -> sstate * Z) L a ob :
+  lookup a (map (fun b => (b, observe E (fst (g b)) b (snd (g b)))) L) = Some ob -> obs_ok (mshapes (kind E)) ob.
+Proof.
+  rewrite (lookup_map_key (fun b => observe E (fst (g b)) b (snd (g b)))).
+  destruct (existsb (Nat.eqb a) L); [|discriminate]. intros [= <-]. apply encode_ok.
+Qed.
+
+Lemma reset_obs_ok E s seed a ob :
+  lookup a (fst (snd (env_reset E s seed))) = Some ob -> obs_ok (mshapes (kind E)) ob.
+Proof.
+  unfold env_reset. cbn [fst snd live].
+  set (s' := {| base := _; ord := _; tm := _; live := _ |}).
+  apply (observed_ok E (fun _ => (s', 0%Z))).
+Qed.
+
+Lemma raw_obs_ok E s acts a ob :
+  lookup a (tobs (snd (raw_step E s acts))) = Some ob -> obs_ok (mshapes (kind E)) ob.
+Proof.
+  unfold raw_step. cbn [fst snd tobs].
+  set (s1 := {| base := _; ord := _; tm := S (tm s); live := live s |}).
+  apply (observed_ok E (fun b => (s1, nth b acts 0%Z))).
+Qed.
+
+Lemma info_of_nodup s a b : NoDup (keys (info_of s a b)).
+Proof. destruct b; cbn; repeat constructor; cbn; intuition discriminate. Qed.
+
+Lemma infos_nodup (g : nat -> sstate * bool) L a d :
+  lookup a (map (fun b => (b, info_of (fst (g b)) b (snd (g b)))) L) = Some d -> NoDup (keys d).
+Proof.
+  rewrite (lookup_map_key (fun b => info_of (fst (g b)) b (snd (g b)))).
+  destruct (existsb (Nat.eqb a) L); [|discriminate]. intros [= <-]. apply info_of_nodup.
+Qed.
+
+Lemma raw_info_nodup E s acts a d :
+  lookup a (tinfo (snd (raw_step E s acts))) = Some d -> NoDup (keys d).
+Proof.
+  unfold raw_step. cbn [snd tinfo].
+  set (s1 := {| base := base s; ord := ord s; tm := S (tm s); live := live s |}).
+  apply (infos_nodup (fun _ => (s1, false))).
+Qed.
+
+Lemma reset_info_nodup E s seed a d :
+  lookup a (snd (snd (env_reset E s seed))) = Some d -> NoDup (keys d).
+Proof.
+  unfold env_reset. cbn [fst snd live].
   match goal with |- context[info_of ?st _ true] => apply (infos_nodup (fun _ => (st, true))) end.
 Qed.
 
-(* vec_env.reset(seed): position i of the returned observations is the (placeholder-completed)
-   first observation of environment i reset alone with seed + i; the state is that environment's *)
-Theorem vec_reset_refines_lemma k agents Es st seed i E s :
+(* ------------------------------------------------------------------ the instance theorems *)
+Theorem vec_refines_singles_lemma k agents Es : forall actss (st : vstate) i E s,
+  NoDup agents -> Forall (fun E => kind E = k) Es -> wf_vstate (length Es) k agents st ->
+  Forall (actions_ok (length Es)) actss ->
+  nth_error Es i = Some E -> nth_error (vstates st) i = Some s ->
+  let acts_i := map (fun actions => nth i (transpose_actions agents actions 0%Z) []) actss in
+  nth_error (vstates (fst (vec_run k agents Es st actss))) i = Some (fst (single_run single_step E s acts_i)) /\
+  Forall2 (fun out ref => agrees_at k agents i out (process_transition k agents ref))
+          (snd (vec_run k agents Es st actss)) (snd (single_run single_step E s acts_i)).
+Proof.
+  exact (g_vec_refines_singles raw_step env_reset kind live all_done_keys_spec raw_obs_ok reset_obs_ok
+           raw_info_nodup reset_info_nodup k agents Es).
+Qed.
+
+Theorem vec_reset_refines_lemma k agents Es (st : vstate) seed i E s :
   NoDup agents -> Forall (fun E => kind E = k) Es -> wf_vstate (length Es) k agents st ->
   nth_error Es i = Some E -> nth_error (vstates st) i = Some s ->
   let r := vec_reset k agents Es st seed in
@@ -80,43 +227,12 @@ Theorem vec_reset_refines_lemma k agents Es st seed i E s :
     (forall key, info_at (snd (snd r)) a key i = info_in (snd (snd w)) a key) /\
     mask_at (snd (snd r)) a i = has_agent (snd (snd w)) a.
 Proof.
-  intros Hnd HK [Ls Hm] HE Hs. cbn zeta. unfold vec_reset.
-  destruct (workers_reset agents 0 Es (vstates st) seed (vmem st)) as [[rs ri] mf] eqn:Ew.
-  destruct (workers_reset_spec agents k (length Es) seed Es 0 _ _ rs ri mf HK Ls (le_n _) Hm Ew)
-    as (Wf & L1 & L2 & Hnth & Hrows).
-  assert (Hi : i < length Es) by (apply nth_error_Some; congruence).
-  destruct (Hnth i E s HE Hs) as [H1 H2]. cbn [plus] in H1, H2.
-  cbn [fst snd vstates vmem]. split; [split; auto|]. split; [exact H1|].
-  assert (Hwf : Forall info_wf ri).
-  { apply Forall_forall. intros x Hin. apply In_nth_error in Hin as [j Hj].
-    assert (Hjl : j < length Es) by (rewrite <- L2; apply nth_error_Some; congruence).
-    destruct (nth_error Es j) as [Ej|] eqn:E1; [|apply nth_error_None in E1; lia].
-    destruct (nth_error (vstates st) j) as [sj|] eqn:E2; [|apply nth_error_None in E2; lia].
-    destruct (Hnth j Ej sj E1 E2) as [_ Hq]. rewrite Hj in Hq. injection Hq as ->.
-    apply worker_reset_info_wf; auto. }
-  assert (Hlen : length ri <= length Es) by lia.
-  intros a Ha. split; [|split].
-  - pose proof (Hrows a i Ha Hi) as Hr. unfold row_of in Hr. rewrite Hr.
-    destruct (Nat.leb_spec 0 i); [|lia]. destruct (Nat.ltb_spec i (0 + length Es)); [|lia]. cbn [andb].
-    rewrite Nat.sub_0_r, HE, Hs. reflexivity.
-  - intros key. apply (gather_info_spec_lemma (length Es) ri a key i _ Hlen Hwf H2).
-  - apply (gather_info_spec_lemma (length Es) ri a 0 i _ Hlen Hwf H2).
+  exact (g_vec_reset_refines_env env_reset kind reset_obs_ok reset_info_nodup k agents Es st seed i E s).
 Qed.
 
-(* worker_reset = env.reset completed by process_transition: every possible agent is alive after
-   a reset, so nothing is replaced when the agents are the environment's possible agents *)
-Lemma worker_reset_spec E agents s seed a :
-  In a agents ->
-  fst (worker_reset E agents s seed) = fst (env_reset E s seed) /\
-  get a (fst (snd (worker_reset E agents s seed))) [] = get a (fst (snd (env_reset E s seed))) (placeholder_obs (kind E)).
-Proof.
-  intros Ha. unfold worker_reset. destruct (env_reset E s seed) as [s' [o i]]. cbn [fst snd]. split; auto.
-  unfold get. rewrite (fill_lookup agents _ o a Ha). reflexivity.
-Qed.
-
-(* a whole session: construct, reset(seed), then any sequence of action batches *)
 Theorem vec_session_refines_lemma k agents Es seed actss i E :
-  NoDup agents -> Forall (fun E => kind E = k) Es -> Forall (actions_ok (length Es)) actss -> nth_error Es i = Some E ->
+  NoDup agents -> Forall (fun E => kind E = k) Es -> Forall (actions_ok (length Es)) actss ->
+  nth_error Es i = Some E ->
   let st0 := fst (vec_reset k agents Es (vec_init k agents Es) seed) in
   let s0 := fst (env_reset E init_state (seed_of seed i)) in
   let acts_i := map (fun actions => nth i (transpose_actions agents actions 0%Z) []) actss in
@@ -124,14 +240,9 @@ Theorem vec_session_refines_lemma k agents Es seed actss i E :
   Forall2 (fun out ref => agrees_at k agents i out (process_transition k agents ref))
           (snd (vec_run k agents Es st0 actss)) (snd (single_run single_step E s0 acts_i)).
 Proof.
-  intros Hnd HK HF HE. cbn zeta.
-  assert (Hs : nth_error (vstates (vec_init k agents Es)) i = Some init_state).
-  { unfold vec_init. cbn [vstates]. rewrite nth_error_map, HE. reflexivity. }
-  destruct (vec_reset_refines_lemma k agents Es (vec_init k agents Es) seed i E init_state Hnd HK
-              (vec_init_wf k agents Es) HE Hs) as (Wf & H1 & _).
-  cbn zeta in H1.
-  assert (Hw : fst (worker_reset E agents init_state (seed_of seed i)) = fst (env_reset E init_state (seed_of seed i))).
-  { unfold worker_reset. destruct (env_reset E init_state (seed_of seed i)) as [s' [o inf]]. reflexivity. }
-  rewrite Hw in H1.
-  apply (vec_refines_singles_lemma k agents Es actss _ i E _ Hnd HK Wf HF HE H1).
+  exact (g_vec_session_refines raw_step env_reset kind live init_state all_done_keys_spec raw_obs_ok reset_obs_ok
+           raw_info_nodup reset_info_nodup k agents Es seed actss i E).
 Qed.
+
+Lemma vec_init_wf k agents Es : wf_vstate (length Es) k agents (vec_init k agents Es).
+Proof. apply (g_vec_init_wf init_state). Qed.
